@@ -1097,6 +1097,7 @@ func (w *c14World) setupVM(svm *test.StubVM) {
 			w.observeAll()
 			booting := time.Now().Before(vm.bootAt)
 			tc = w.log.add(c14Event{Kind: "vm-detach-call", VM: id, UUID: uuid})
+			svm.C14ResetKill(uuid) // a new process is not affected by signals sent to an earlier one
 			if vm.kind == "slow-start" && !booting {
 				w.mu.Lock()
 				w.slowInFlight++
